@@ -19,6 +19,7 @@ def splitMsh (content : Str) : R (List Str × EC) :=
     let fields := splitOn fs msh
     let seps := fields.getD 1 []
     if hasDup seps then .error .InvalidEncodingChars else
+    if seps.any isWS then .error .InvalidEncodingChars else      -- fix of finding D21
     match seps with
     | [c, r, e, s] => .ok (fields, ⟨fs, c, s, r, e, none⟩)
     | [c, r, e, s, t] =>
@@ -309,6 +310,7 @@ def parseMessage (tables : List Tables) (dflt : Defaults) (text : Str) (strict :
     | some T => pure T
     | none => throw .UnsupportedVersion
   if !ecInDomain ec then throw .Unsupported
+  if (st.getD []).any (fun c => c.toNat > 127) then throw .Unsupported     -- `str.upper()` of non-ASCII letters
   let name : Option String := st.map (fun s => (String.ofList s).toUpper)
   -- Message(name=structure, …): InvalidName falls back to an unnamed message
   let known : Option (String × List SRow) :=
